@@ -327,8 +327,17 @@ Section Stack.
     | O => ([], ch, w)
     | S k' =>
         let '(ch', w', o) := serve fuel ch w in
-        let '(rs, ch'', w'') := serve_batch fuel k' ch' w' in
-        ((w_attempts w, o, w_attempts w') :: rs, ch'', w'')
+        match o with
+        | ServiceFailed e =>
+            (* Worker::failed closes the queue; the requests ALREADY queued are drained with a
+               clone of the same ServiceError (only requests issued later fail in
+               Buffer::poll_ready, "Service was not ready") *)
+            ((w_attempts w, o, w_attempts w') ::
+             repeat (w_attempts w', ServiceFailed e, w_attempts w') k', ch', w')
+        | _ =>
+            let '(rs, ch'', w'') := serve_batch fuel k' ch' w' in
+            ((w_attempts w, o, w_attempts w') :: rs, ch'', w'')
+        end
     end.
   Definition settle (ch : chan) : chan := mkChan (settle_rc (ch_rc ch)) (ch_failed ch).
 
